@@ -43,6 +43,7 @@ func freshDecls() []freshDecl {
 		{"type", &gen.Block{Kind: "type", Name: "@freshType", Notation: "jsight", Annotation: "fresh", Schema: &gen.SNode{Kind: "object", Props: []*gen.SProp{{Key: "f", Node: &gen.SNode{Kind: "int", Val: "1"}}}}},
 			map[string][]string{"userTypes": {"@freshType"}}},
 		{"regex-type", &gen.Block{Kind: "type", Name: "@freshRegex", Notation: "regex", Regex: "fr[e]+sh"}, map[string][]string{"userTypes": {"@freshRegex"}}},
+		{"regex-type-matching-a-control-character", &gen.Block{Kind: "type", Name: "@freshBell", Notation: "regex", Regex: "[\\x07]x"}, map[string][]string{"userTypes": {"@freshBell"}}},
 		{"enum", &gen.Block{Kind: "enum", Name: "@freshEnum", EnumVals: []gen.EnumVal{{Kind: "int", Val: "1"}, {Kind: "string", Val: "two"}}}, map[string][]string{"userEnums": {"@freshEnum"}}},
 		{"server", &gen.Block{Kind: "server", Name: "@freshServer", BaseURL: "https://fresh.example/"}, map[string][]string{"servers": {"@freshServer"}}},
 		{"tag", &gen.Block{Kind: "tag", Name: "@FreshTag", Annotation: "Fresh"}, map[string][]string{"tags": {"@FreshTag"}}},
@@ -54,6 +55,10 @@ func freshDecls() []freshDecl {
 			PathDecl:  &gen.SNode{Kind: "ref", Ref: "@pathShape"},
 			Responses: []*gen.Response{{Code: "200", Body: gen.Body{Form: "any"}}}}},
 			map[string][]string{"interactions": {"http GET /freshshape/{fp}/{fq}"}, "tags": {"@freshshape"}}},
+		{"rpc-block", &gen.Block{Kind: "rpcurl", Path: "/freshrpc", RPC: []*gen.RPCMethod{{Name: "freshPing",
+			Params: &gen.SNode{Kind: "object", Props: []*gen.SProp{{Key: "fp", Node: &gen.SNode{Kind: "int", Val: "1"}}}},
+			Result: &gen.SNode{Kind: "object", Props: []*gen.SProp{{Key: "fr", Node: &gen.SNode{Kind: "bool", Val: "true"}}}}}}},
+			map[string][]string{"interactions": {"json-rpc-2.0 freshPing /freshrpc"}, "tags": {"@freshrpc"}}},
 		{"url-block", &gen.Block{Kind: "url", Path: "/freshurl/{fid}", Methods: []*gen.Method{{Verb: "POST", Path: "/freshurl/{fid}",
 			Request:   &gen.Request{Body: gen.Body{Form: "schema", Schema: &gen.SNode{Kind: "object", Props: []*gen.SProp{{Key: "x", Node: &gen.SNode{Kind: "int", Val: "1"}}}}}},
 			Responses: []*gen.Response{{Code: "201", Body: gen.Body{Form: "empty"}}}}}},
@@ -170,7 +175,12 @@ func c20Eval(t *fw.T, c *fw.Case) {
 				t.Violation(sig, fmt.Sprintf("%s (added %s at position %d of %d)\n--- before\n%s\n--- after\n%s", msg, fd.kind, pos, n, base.Text, rd.Text))
 			}
 			if o.Outcome != run.Accepted {
-				fail("addition-changes-verdict:"+fd.kind+":"+outcomeSig(o), "adding an independent declaration makes the document "+describe(o))
+				sig := "addition-changes-verdict:" + fd.kind + ":" + outcomeSig(o)
+				if fd.kind == "regex-type-matching-a-control-character" && strings.Contains(o.Msg, "in string escape code") {
+					// one cause (recorded finding), several places where it surfaces: one signature
+					sig = "addition-changes-verdict:" + fd.kind + ":string-escape-code"
+				}
+				fail(sig, "adding an independent declaration makes the document "+describe(o))
 				break
 			}
 			cm, err := jsonx.Parse(o.JSON)
